@@ -362,7 +362,7 @@ fn directed_large_storage(rep: &Report, ck: &Ck) {
         hist.push(do_decap(&mut d, &inter).class());
     }
     let s = RxS::of(&d);
-    let filled = s.mem.frags[0].as_ref().map(|c| c.0.pdu_len).unwrap_or(0);
+    let filled = s.mem.ctx_in_class(0).map(|c| c.0.pdu_len).unwrap_or(0);
     let mut inputs: Vec<Vec<u8>> = vec![];
     for n in [1usize, 2, 39, 40, 41, 100, 1000, 4094] {
         inputs.push(Desc::inter(0, &vec![0x43u8; n]).print());
